@@ -12,7 +12,10 @@
   * second half ("The lexer and layout", helpers in Lemmas/C09*.lean): `tokens_independent_of_position`,
     `skipWs_spec`, `layout_invariance(_at_boundary)`, `newline_is_semicolon(_at_boundary)`, `int_separators`.
 
-  Not in this file (DESIGN.md §6 C09): `hex_escape_ascii`, `lex_render`.
+  * third part ("The lexer round trip", helpers in Lemmas/LexRT*.lean): `lex_render_token`, `lex_render`,
+    `lex_render_boundaries`, `lex_render_lexAll`, `lex_render_exact`.
+
+  Not in this file (DESIGN.md §6 C09): `hex_escape_ascii`.
 -/
 import SeedModel.Lex
 import SeedProofs.Lemmas.Scan
@@ -22,6 +25,7 @@ import SeedProofs.Lemmas.C09Local
 import SeedProofs.Lemmas.C09Tok
 import SeedProofs.Lemmas.C09Raw
 import SeedProofs.Lemmas.C09Int
+import SeedProofs.Lemmas.LexRT
 namespace Seed.C09
 open Seed
 
@@ -569,5 +573,120 @@ example :
     (∀ e, x.head? = some e → isIntChar e = false) ∧ decimalValue ds ≤ i64Max := by
   refine ⟨by decide, by decide, by decide, by decide, by decide, ?_, by decide⟩
   intro e he; injection he with he; subst he; decide
+
+end Seed.C09
+
+/-! ## The lexer round trip (`lex_render`)
+
+  Helper definitions (Lemmas/LexRTDefs.lean): `renderTok t` is the canonical spelling of the token `t` —
+  symbols and keywords by inverse lookup in `Gen.tripleSym` / `Gen.doubleSym` / `Gen.singleSym` / `Gen.keywords`,
+  an identifier as its text, an integer literal in decimal, a string literal `"…"` escaped as in C15
+  (`escapeChars`), an interpolated literal `$"…"` with escaped pieces and raw `${…}` slots (C15 `render`),
+  `StmtEnd` as `;`.  `renderToks ts` is the spellings separated by exactly one blank.  `TokWF t` (decidable):
+  every symbol, keyword and `StmtEnd`; `Ident w` with `w` a non-empty identifier text that is not a keyword;
+  `IntLiteral n` with `0 ≤ n ≤ i64::MAX` (the lexer never produces a negative literal: `-5` is `Sub`,
+  `IntLiteral 5`); every `StrLiteral s`; `InterpStrLiteral s slots` whose slots cut `s` into pieces and
+  brace-balanced `${…}` texts from which `s` and `slots` are rebuilt exactly. -/
+
+namespace Seed.C09
+open Seed Seed.LexRT
+
+-- audit: Seed.LexRT.nextToken_render Seed.LexRT.nextToken_render_int Seed.LexRT.nextToken_render_ident Seed.LexRT.nextToken_render_str Seed.LexRT.nextToken_render_interp Seed.LexRT.nextToken_render_closed Seed.LexRT.natToChars_spec Seed.LexRT.tokWF_interp_of_pieces Seed.LexRT.splitSlots_decoded
+-- audit: Seed.LexRT.lexTo_render Seed.LexRT.lexRaw_render Seed.LexRT.lexAll_render Seed.LexRT.lexAll_render_keepAll Seed.LexRT.suppress_map_tok Seed.LexRT.suppressT_spec Seed.LexRT.suppressT_of_keepAll Seed.LexRT.suppress_of_keepAll Seed.LexRT.keepAll_append
+
+/-- **one token**: the spelling of a well-formed token, followed by the end of input or by a separator
+    character (blank, `#`, newline, `;`), is lexed — from any position — as exactly that token, and the
+    scanner stops right behind the spelling -/
+theorem lex_render_token (t : Token) (h : TokWF t) (rest : List Char)
+    (hr : rest = [] ∨ ∃ e r, rest = e :: r ∧ isSep e) (l c : Nat) :
+    ∃ sp s', nextToken ⟨renderTok t ++ rest, l, c⟩ = .tok sp s' ∧ sp.tok = t ∧ s'.rest = rest :=
+  kind_tok_iff.mp (nextToken_render t h rest hr l c)
+
+example : TokWF (.InterpStrLiteral c!"a${x}$" [(1, 5)]) ∧
+    ((c!" +" : List Char) = [] ∨ ∃ e r, (c!" +" : List Char) = e :: r ∧ isSep e) :=
+  ⟨by decide, Or.inr ⟨' ', c!"+", rfl, by decide⟩⟩
+example : kind (nextToken ⟨renderTok (.InterpStrLiteral c!"a${x}$" [(1, 5)]) ++ c!" +", 3, 7⟩) =
+    .tok (.InterpStrLiteral c!"a${x}$" [(1, 5)]) c!" +" := by decide
+
+/-- **`lex_render`**: for every list `ts` of well-formed tokens, lexing its spelling `renderToks ts` — from any
+    position, with any fuel exceeding the number of tokens — yields raw tokens whose `.tok` projection is
+    exactly `ts` (terminators included: this is the stream *before* suppression) and no lexical error.  No
+    adjacency side condition: consecutive spellings are separated by a blank. -/
+theorem lex_render (ts : List Token) (h : ∀ t ∈ ts, TokWF t) (n l c : Nat) (hn : ts.length < n) :
+    (lexRaw n ⟨renderToks ts, l, c⟩).1.map Span.tok = ts ∧ (lexRaw n ⟨renderToks ts, l, c⟩).2 = none :=
+  lexRaw_render ts h n l c hn
+
+/-- the same, position- and fuel-free: the spelling is cut at token boundaries into exactly `ts`, and nothing
+    is left (so the boundary theorems above — layout, newline for `;`, `_` in numbers — apply to it) -/
+theorem lex_render_boundaries (ts : List Token) (h : ∀ t ∈ ts, TokWF t) : LexTo (renderToks ts) ts [] :=
+  lexTo_render ts h
+
+theorem dropsNow_eq_dropsAfter (o : Option Token) : dropsNow o = dropsAfter o := by
+  cases o <;> rfl
+
+/-- **`lex_render`, what the parser sees**: `lexAll (renderToks ts)` reports no error, and its tokens are `ts`
+    without exactly those `StmtEnd`s that are first or directly follow (in `ts`) a `StmtEnd` or a continuation
+    token — the rule of `suppress_spec`, on bare tokens -/
+theorem lex_render_lexAll (ts : List Token) (h : ∀ t ∈ ts, TokWF t) :
+    (lexAll (renderToks ts)).2 = none ∧
+    (lexAll (renderToks ts)).1.map Span.tok =
+      ((ts.zip (none :: ts.map some)).filter (fun p => p.1 != Token.StmtEnd || !dropsAfter p.2)).map Prod.fst := by
+  obtain ⟨h1, h2⟩ := lexAll_render ts h
+  refine ⟨h1, ?_⟩
+  rw [h2, suppressT_spec]
+  simp only [keptT, dropsNow_eq_dropsAfter]
+
+/-- … in particular nothing is removed when no terminator of `ts` is first or follows a terminator or a
+    continuation token (`keepAll true ts`); the printer of C08 only produces such lists -/
+theorem lex_render_exact (ts : List Token) (h : ∀ t ∈ ts, TokWF t) (hk : keepAll true ts = true) :
+    (lexAll (renderToks ts)).2 = none ∧ (lexAll (renderToks ts)).1.map Span.tok = ts :=
+  lexAll_render_keepAll ts h hk
+
+/-- every interpolated literal of C15's `slots_exact` (any pieces, brace-balanced slot texts) is well-formed,
+    so the round trip covers every literal that theorem describes -/
+theorem interp_literals_wf (p0 : List Char) (segs : List (List Char × List Char))
+    (hb : ∀ x ∈ segs, C15.Balanced x.1) :
+    TokWF (.InterpStrLiteral (C15.decoded p0 segs) (C15.slotsOf 0 p0 segs)) :=
+  tokWF_interp_of_pieces p0 segs hb
+
+example : ∀ x ∈ [(c!"f({})", c!"$")], C15.Balanced x.1 := by decide
+
+/-- a token list with every token class: all 33 symbols, all 12 keywords, `;`, identifiers, integer literals
+    (0 and `i64::MAX`), string literals (escapes, non-ASCII, braces), interpolated literals (no slot, two slots) -/
+def sampleTokens : List Token := [
+  .BraceClose, .BraceOpen, .BracketClose, .BracketOpen, .Colon, .Comma, .Div, .Dot, .Equals, .GreaterThan,
+  .LessThan, .Mod, .Mul, .ParenClose, .ParenOpen, .Sub, .Sum, .AmpAmp, .BangEquals, .ColonEquals,
+  .DashGreaterThan, .DivEquals, .DotDot, .EqualsEquals, .GreaterThanEquals, .LessThanEquals, .ModEquals,
+  .MulEquals, .PipePipe, .SubEquals, .SumEquals, .EqualsEqualsEquals, .BangEqualsEquals,
+  .Break, .Continue, .Else, .False, .Fn, .For, .If, .In, .Null, .Return, .True, .While,
+  .StmtEnd, .StmtEnd, .Ident c!"x", .Ident c!"_whileX9", .IntLiteral 0, .IntLiteral 9223372036854775807,
+  .StrLiteral [], .StrLiteral c!"aé\\\"$\n\r€{}😀 # ;", .InterpStrLiteral c!"$" [],
+  .InterpStrLiteral c!"é${x}}{${f({\"k\": 1})}$" [(1, 5), (7, 21)], .StmtEnd]
+
+example : ∀ t ∈ sampleTokens, TokWF t := by decide
+example : sampleTokens.length < 100 := by decide
+example : renderToks (sampleTokens.drop 45) =
+    c!"; ; x _whileX9 0 9223372036854775807 \"\" \"aé\\\\\\\"\\$\\n\\r€{}😀 # ;\" $\"\\$\" $\"é${x}}{${f({\"k\": 1})}\\$\" ;" := by
+  decide
+-- the theorem applied, and the same fact by evaluation of the lexer model
+example : (lexRaw 100 ⟨renderToks sampleTokens, 1, 1⟩).1.map Span.tok = sampleTokens :=
+  (lex_render sampleTokens (by decide) 100 1 1 (by decide)).1
+example : (lexRaw 100 ⟨renderToks sampleTokens, 1, 1⟩).1.map Span.tok = sampleTokens ∧
+    (lexRaw 100 ⟨renderToks sampleTokens, 1, 1⟩).2 = none := by decide +kernel
+-- what the parser sees: the terminators after `while`'s successor `;` … — the second of `; ;` is dropped, the
+-- first (after the keyword `while`) and the last (after a literal) are kept
+example : (lexAll (renderToks sampleTokens)).1.map Span.tok = sampleTokens.take 46 ++ sampleTokens.drop 47 := by
+  decide +kernel
+example : keepAll true [.Ident c!"x", .Equals, .Sub, .IntLiteral 5, .StmtEnd] = true ∧
+    keepAll true [.Ident c!"x", .Equals, .StmtEnd, .IntLiteral 5] = false ∧
+    keepAll true [.StmtEnd] = false := by decide
+-- outside `TokWF` the spelling is lexed as something else, or not at all
+example : (lexAll (renderTok (.Ident c!"while"))).1.map Span.tok = [.While] ∧
+    (lexAll (renderTok (.Ident c!"a b"))).1.map Span.tok = [.Ident c!"a", .Ident c!"b"] ∧
+    (lexAll (renderTok (.IntLiteral (-5)))).1.map Span.tok = [.IntLiteral 0] ∧
+    (lexAll (renderTok (.IntLiteral 9223372036854775808))).2 =
+      some (.IntOverflow (1, 1) c!"9223372036854775808") := by decide +kernel
+-- a negative number is two tokens
+example : (lexAll c!"-5").1.map Span.tok = [.Sub, .IntLiteral 5] := by decide
 
 end Seed.C09
